@@ -20,6 +20,49 @@ func SetFinalizer(obj interface{}, finalizer interface{}) {
 	runtime.SetFinalizer(obj, finalizer)
 }
 
+// GOMAXPROCS and NumCPU report the simulated machine's size inside a simulation
+// (a per-run knob of the harness: code that sizes worker pools by it must work
+// for every value), the real one outside. Setting it has no effect there.
+func GOMAXPROCS(n int) int {
+	if s := simrt.Active(); s != nil && s.CPUs() > 0 {
+		return s.CPUs()
+	}
+	return runtime.GOMAXPROCS(n)
+}
+
+func NumCPU() int {
+	if s := simrt.Active(); s != nil && s.CPUs() > 0 {
+		return s.CPUs()
+	}
+	return runtime.NumCPU()
+}
+
+const (
+	GOOS     = runtime.GOOS
+	GOARCH   = runtime.GOARCH
+	Compiler = runtime.Compiler
+)
+
+type (
+	Frame    = runtime.Frame
+	Frames   = runtime.Frames
+	Func     = runtime.Func
+	MemStats = runtime.MemStats
+	Error    = runtime.Error
+)
+
+func Version() string                              { return runtime.Version() }
+func GOROOT() string                               { return runtime.GOROOT() }
+func KeepAlive(x interface{})                      { runtime.KeepAlive(x) }
+func Caller(skip int) (uintptr, string, int, bool) { return runtime.Caller(skip + 1) }
+func Callers(skip int, pc []uintptr) int           { return runtime.Callers(skip+1, pc) }
+func CallersFrames(callers []uintptr) *Frames      { return runtime.CallersFrames(callers) }
+func FuncForPC(pc uintptr) *Func                   { return runtime.FuncForPC(pc) }
+func ReadMemStats(m *MemStats)                     { runtime.ReadMemStats(m) }
+func Goexit()                                      { runtime.Goexit() }
+func LockOSThread()                                {}
+func UnlockOSThread()                              {}
+
 func Gosched()          { simrt.Yield("runtime.Gosched"); runtime.Gosched() }
 func NumGoroutine() int { return runtime.NumGoroutine() }
 func GC()               { runtime.GC() }
